@@ -814,7 +814,7 @@ func main() {
 	rep := hx.NewReport("C15", o.Seed, o.Tier)
 	rep.Rule = "programs of the integer fragment (22 hand-written template families x cancel position K x loop bound M: tight loops, recursion depth 100..990, for-in over 200..1000 keys with nested calls, main-loop rules with patterns/ranges/next, END, pending output, secondary errors and exit after cancel()) and random nestings of loops/calls/for-in/rules with a shared tick that triggers cancel(); each in modes Execute / Background / live context / pre-cancelled; model = extracted Coq execute_all on the dumped compiled program; compared: result, flushed, ctxOps at end and at cancel(), output, rec() arguments, all global arrays; distinct = distinct (program, mode); non-trivial = the model executed at least 20 instructions"
 	r := hx.NewRand(o.Seed)
-	nTempl, nRand, nGen := 3, 120, 150
+	nTempl, nRand, nGen := 2, 80, 100
 	if o.Tier == "thorough" {
 		nTempl, nRand, nGen = 40, 3000, 4000
 	}
